@@ -113,19 +113,20 @@ func newRuleguardChecker(info *linter.CheckerInfo, ctx *linter.CheckerContext) (
 		ctx:        ctx,
 		debugGroup: info.Params.String("debug"),
 	}
-	rulesFlag := info.Params.String("rules")
-	if rulesFlag == "" {
-		return c, nil
-	}
 	failOn := info.Params.String("failOn")
 	if failOn == "" {
 		if info.Params.Bool("failOnError") {
 			failOn = "all"
 		}
 	}
+	// Validate failOn even if there are no rules to load.
 	h, err := newErrorHandler(failOn)
 	if err != nil {
 		return nil, err
+	}
+	rulesFlag := info.Params.String("rules")
+	if rulesFlag == "" {
+		return c, nil
 	}
 
 	engine := ruleguard.NewEngine()
